@@ -447,6 +447,124 @@ theorem wfail_touches_no_key (p : Prog) (s : Sys) (w n k : Nat) :
   simp only [step]
   split <;> simp [upd]
 
+/-! ### failed Set calls (creation, rename), later calls, and the FileCache value issuing a call -/
+
+/-- **a Set whose `os.CreateTemp` failed is no step at all**: nothing in the directory, no inode,
+no writer state changes (the call is only listed among the failed ones) -/
+theorem cfail_changes_nothing (p : Prog) (s : Sys) (a b : Nat) : stepEv p s ⟨.cfail, a, b⟩ = s := rfl
+
+/-- **a failed rename (with its cleanup) changes no key name** -/
+theorem rnfail_touches_no_key (p : Prog) (s : Sys) (w b k : Nat) :
+    (stepEv p s ⟨.rnfail, w, b⟩).dir (.key k) = s.dir (.key k) := by
+  simp only [stepEv, Ev.toEvent, step]
+  split <;> simp [upd]
+
+/-- ... removes the temp file of the call, and the call is over -/
+theorem rnfail_removes_temp (p : Prog) (s : Sys) (w b t i : Nat) (h : s.wst w = .closed t i) :
+    (stepEv p s ⟨.rnfail, w, b⟩).dir (.tmp t) = none ∧ (stepEv p s ⟨.rnfail, w, b⟩).wst w = .dead := by
+  simp [stepEv, Ev.toEvent, step, h, upd]
+
+/-- a failed call is reported exactly where it fails: creation before the call did anything,
+write while writing, rename after the close -/
+theorem failsAt_cfail (s : Sys) (a b : Nat) : failsAt s ⟨.cfail, a, b⟩ = isIdle s a := rfl
+theorem failsAt_wfail (s : Sys) (a b : Nat) : failsAt s ⟨.wfail, a, b⟩ = isOpened s a := rfl
+theorem failsAt_rnfail (s : Sys) (a b : Nat) : failsAt s ⟨.rnfail, a, b⟩ = isClosed s a := rfl
+
+/-- **a completed Set is visible whatever happened before.** In ANY state - after any history of
+completed, failed and killed calls, through whichever FileCache values - a call that has not begun
+(and whose temp name is free), once its four steps have happened, has its own bundle under its key:
+no earlier failure can make a later store a no-op. -/
+theorem completed_set_is_visible (i : Input) (s : Sys) (w : Nat) (hw : s.wst w = .idle)
+    (ht : s.dir (.tmp w) = none) :
+    getObs (runFrom (prog i) s [.create w w, .write w ((prog i).wdata w).length, .close w, .rename w])
+        (specOf i w).key = ⟨.complete, (specOf i w).base, (specOf i w).delta⟩ := by
+  simp [runFrom, step, hw, ht, upd, getObs, prog, decode_mkData]
+
+/-- two inputs that describe the same calls and the same trace and differ at most in WHICH
+FileCache value issues each call (`obj`) -/
+def SameCalls (i j : Input) : Prop :=
+  i.free = j.free ∧ i.nkeys = j.nkeys ∧ i.events = j.events ∧ i.writers.length = j.writers.length ∧
+  ∀ w, (specOf i w).key = (specOf j w).key ∧ (specOf i w).base = (specOf j w).base ∧
+    (specOf i w).delta = (specOf j w).delta ∧ (specOf i w).len = (specOf j w).len
+
+theorem sameCalls_prog (i j : Input) (h : SameCalls i j) : prog i = prog j := by
+  obtain ⟨_, _, _, _, hw⟩ := h
+  unfold prog
+  have h1 : (fun w => (specOf i w).key) = fun w => (specOf j w).key := funext fun w => (hw w).1
+  have h2 : (fun w => mkData (specOf i w).base (specOf i w).delta (specOf i w).len) =
+      fun w => mkData (specOf j w).base (specOf j w).delta (specOf j w).len :=
+    funext fun w => by rw [(hw w).2.1, (hw w).2.2.1, (hw w).2.2.2]
+  rw [h1, h2]
+
+theorem sameCalls_bound (i j : Input) (h : SameCalls i j) : bound i = bound j := by
+  obtain ⟨_, _, he, hl, _⟩ := h
+  simp [bound, he, hl]
+
+theorem sameCalls_okRead (i j : Input) (h : SameCalls i j) (k : Nat) (o : ReadObs) :
+    okRead i k o = okRead j k o := by
+  have hb := sameCalls_bound i j h
+  obtain ⟨_, _, _, _, hw⟩ := h
+  have h1 : ∀ w, (specOf i w).key = (specOf j w).key := fun w => (hw w).1
+  have h2 : ∀ w, (specOf i w).base = (specOf j w).base := fun w => (hw w).2.1
+  have h3 : ∀ w, (specOf i w).delta = (specOf j w).delta := fun w => (hw w).2.2.1
+  simp only [okRead, sameContent, hb, h1, h2, h3]
+
+theorem sameCalls_freshOK (i j : Input) (h : SameCalls i j) (s : Sys) (k : Nat) (o : ReadObs) :
+    freshOK i s k o = freshOK j s k o := by
+  have hb := sameCalls_bound i j h
+  obtain ⟨_, _, _, _, hw⟩ := h
+  have h1 : ∀ w, (specOf i w).key = (specOf j w).key := fun w => (hw w).1
+  have h2 : ∀ w, (specOf i w).base = (specOf j w).base := fun w => (hw w).2.1
+  have h3 : ∀ w, (specOf i w).delta = (specOf j w).delta := fun w => (hw w).2.2.1
+  simp only [freshOK, sameContent, hb, h1, h2, h3]
+
+theorem sameCalls_probeOK (i j : Input) (h : SameCalls i j) (s : Sys) (d : DirObs) :
+    probeOK i s d = probeOK j s d := by
+  have h1 : (fun k o => okRead i k o) = fun k o => okRead j k o :=
+    funext fun k => funext fun o => sameCalls_okRead i j h k o
+  have h2 : (fun k o => freshOK i s k o) = fun k o => freshOK j s k o :=
+    funext fun k => funext fun o => sameCalls_freshOK i j h s k o
+  simp only [probeOK, h1, h2, h.2.1]
+
+/-- **which FileCache value issues a call is irrelevant** (the cache is the directory): inputs
+that differ only in the `obj` fields of their calls have the same predicted observations and the
+same clauses - so a store through a value on which an earlier store failed is judged exactly like a
+store through a fresh value or another process. -/
+theorem obj_irrelevant (i j : Input) (h : SameCalls i j) :
+    run i = run j ∧ ∀ o, clauses i o = clauses j o := by
+  have hp := sameCalls_prog i j h
+  have hb := sameCalls_bound i j h
+  have h1 : (fun (ks : Nat × Sys) r => okRead i ks.1 r) = fun (ks : Nat × Sys) r => okRead j ks.1 r :=
+    funext fun ks => funext fun o => sameCalls_okRead i j h ks.1 o
+  have h2 : (fun (ks : Nat × Sys) r => freshOK i ks.2 ks.1 r) = fun (ks : Nat × Sys) r => freshOK j ks.2 ks.1 r :=
+    funext fun ks => funext fun o => sameCalls_freshOK i j h ks.2 ks.1 o
+  have h3 : (fun s d => probeOK i s d) = fun s d => probeOK j s d :=
+    funext fun s => funext fun d => sameCalls_probeOK i j h s d
+  have h4 : ∀ x : SeenObs, okRead i x.key ⟨x.kind, x.base, x.delta⟩ = okRead j x.key ⟨x.kind, x.base, x.delta⟩ :=
+    fun x => sameCalls_okRead i j h _ _
+  obtain ⟨hf, hn, he, _, _⟩ := h
+  constructor
+  · simp only [run, hp, hb, hf, hn, he]
+  · intro o
+    simp only [clauses, hp, hf, he, h1, h2, h3, h4]
+
+/-- the instance used by the harness: renumbering the FileCache values changes nothing -/
+def withObj (f : WSpec → Nat) (i : Input) : Input :=
+  { i with writers := i.writers.map (fun s => { s with obj := f s }) }
+
+theorem sameCalls_withObj (f : WSpec → Nat) (i : Input) : SameCalls (withObj f i) i := by
+  refine ⟨rfl, rfl, rfl, by simp [withObj], ?_⟩
+  intro w
+  simp only [specOf, withObj, List.getElem?_map]
+  cases i.writers[w]? <;> simp
+
+theorem run_withObj (f : WSpec → Nat) (i : Input) : run (withObj f i) = run i :=
+  (obj_irrelevant _ _ (sameCalls_withObj f i)).1
+
+theorem holds_withObj (f : WSpec → Nat) (i : Input) (o : Obs) : Holds (withObj f i) o = Holds i o := by
+  simp only [Holds, (obj_irrelevant _ _ (sameCalls_withObj f i)).2 o]
+
+
 /-- the `get` of the trace replay is what a reader of the state machine finishes with when it
 opens and reads to EOF without other events in between (one `os.ReadFile`): a miss when the key
 name is absent, otherwise the whole inode -/
@@ -469,7 +587,7 @@ theorem get_atomic (p : Prog) (s : Sys) (r n : Nat) (hr : s.rst r = .idle)
 /-! ### non-vacuity -/
 
 def exTrace : Input :=
-  { free := false, writers := [⟨0, 1, 0, 1⟩, ⟨0, 2, 0, 1⟩], nkeys := 1, urls := [],
+  { free := false, writers := [⟨0, 1, 0, 1, 0⟩, ⟨0, 2, 0, 1, 0⟩], nkeys := 1, urls := [],
     events := [⟨.get, 0, 0⟩, ⟨.create, 0, 0⟩, ⟨.write, 0, 4⟩, ⟨.create, 1, 0⟩, ⟨.write, 1, 1⟩, ⟨.close, 0, 0⟩,
                ⟨.rename, 0, 0⟩, ⟨.get, 0, 0⟩, ⟨.crash, 1, 0⟩, ⟨.probe, 0, 0⟩] }
 
@@ -503,21 +621,21 @@ example : Holds exTrace
   decide
 
 /-- a bundle stored for another URL is not acceptable in a free run either -/
-example : Holds { free := true, writers := [⟨0, 1, 0, 1⟩, ⟨1, 2, 0, 1⟩], nkeys := 2, urls := [], events := [] }
+example : Holds { free := true, writers := [⟨0, 1, 0, 1, 0⟩, ⟨1, 2, 0, 1, 0⟩], nkeys := 2, urls := [], events := [] }
     { gets := [], probes := [], seen := [⟨0, .complete, 2, 0, true⟩], failed := [] } = false := by decide
 
 /-- in a free run, a miss after a Set for the URL returned is a violation -/
-example : Holds { free := true, writers := [⟨0, 1, 0, 1⟩, ⟨1, 2, 0, 1⟩], nkeys := 2, urls := [], events := [] }
+example : Holds { free := true, writers := [⟨0, 1, 0, 1, 0⟩, ⟨1, 2, 0, 1, 0⟩], nkeys := 2, urls := [], events := [] }
     { gets := [], probes := [], seen := [⟨0, .miss, 0, 0, true⟩], failed := [] } = false := by decide
 
-example : Holds { free := true, writers := [⟨0, 1, 0, 1⟩, ⟨1, 2, 0, 1⟩], nkeys := 2, urls := [], events := [] }
+example : Holds { free := true, writers := [⟨0, 1, 0, 1, 0⟩, ⟨1, 2, 0, 1, 0⟩], nkeys := 2, urls := [], events := [] }
     { gets := [], probes := [],
       seen := [⟨0, .miss, 0, 0, false⟩, ⟨0, .complete, 1, 0, true⟩, ⟨1, .complete, 2, 0, true⟩], failed := [] } = true := by
   decide
 
 /-- Set({B,D}) then Set({B,nil}) on one URL, both complete; then a Get -/
 def exSharedBase : Input :=
-  { free := false, writers := [⟨0, 1, 5, 1⟩, ⟨0, 1, 0, 1⟩], nkeys := 1, urls := [],
+  { free := false, writers := [⟨0, 1, 5, 1, 0⟩, ⟨0, 1, 0, 1, 0⟩], nkeys := 1, urls := [],
     events := [⟨.create, 0, 0⟩, ⟨.write, 0, 4⟩, ⟨.close, 0, 0⟩, ⟨.rename, 0, 0⟩, ⟨.create, 1, 0⟩,
                ⟨.write, 1, 4⟩, ⟨.close, 1, 0⟩, ⟨.rename, 1, 0⟩, ⟨.get, 0, 0⟩] }
 
@@ -530,7 +648,7 @@ example : Holds exSharedBase { gets := [⟨.complete, 1, 5⟩], probes := [], se
 /-- A ; B ; A: after the third write only A is acceptable, and A is accepted although the first
 write stored the same content -/
 def exABA : Input :=
-  { free := false, writers := [⟨0, 1, 0, 1⟩, ⟨0, 2, 0, 1⟩, ⟨0, 1, 0, 1⟩], nkeys := 1, urls := [],
+  { free := false, writers := [⟨0, 1, 0, 1, 0⟩, ⟨0, 2, 0, 1, 0⟩, ⟨0, 1, 0, 1, 0⟩], nkeys := 1, urls := [],
     events := [⟨.create, 0, 0⟩, ⟨.write, 0, 4⟩, ⟨.close, 0, 0⟩, ⟨.rename, 0, 0⟩,
                ⟨.create, 1, 0⟩, ⟨.write, 1, 4⟩, ⟨.close, 1, 0⟩, ⟨.rename, 1, 0⟩,
                ⟨.create, 2, 0⟩, ⟨.write, 2, 4⟩, ⟨.close, 2, 0⟩, ⟨.rename, 2, 0⟩, ⟨.get, 0, 0⟩] }
@@ -541,7 +659,7 @@ example : Holds exABA { gets := [⟨.complete, 2, 0⟩], probes := [], seen := [
 /-- an existing entry, then a Set whose write fails after 2 of 4 cells: the writer reports the
 error, the temp file is gone, the old entry is still what readers get -/
 def exFault : Input :=
-  { free := false, writers := [⟨0, 1, 0, 1⟩, ⟨0, 2, 0, 1⟩], nkeys := 1, urls := [],
+  { free := false, writers := [⟨0, 1, 0, 1, 0⟩, ⟨0, 2, 0, 1, 0⟩], nkeys := 1, urls := [],
     events := [⟨.create, 0, 0⟩, ⟨.write, 0, 4⟩, ⟨.close, 0, 0⟩, ⟨.rename, 0, 0⟩,
                ⟨.create, 1, 0⟩, ⟨.wfail, 1, 2⟩, ⟨.close, 1, 0⟩, ⟨.rename, 1, 0⟩, ⟨.probe, 0, 0⟩] }
 
@@ -557,6 +675,38 @@ example : Holds exFault
 example : Holds exFault
     { gets := [], probes := [{ present := [true], keys := [⟨.complete, 1, 0⟩], temps := 0, others := 0 }],
       seen := [], failed := [] } = false := by decide
+
+/-- ONE long-lived FileCache value: Set(B1) completes; a Set fails before its first step (the cache
+directory was briefly away); Set(B2) completes; a Set of another URL fails in its rename -/
+def exHistory : Input :=
+  { free := false, writers := [⟨0, 1, 0, 1, 0⟩, ⟨0, 3, 0, 1, 0⟩, ⟨0, 2, 0, 1, 0⟩, ⟨1, 4, 0, 1, 0⟩], nkeys := 2, urls := [],
+    events := [⟨.create, 0, 0⟩, ⟨.write, 0, 4⟩, ⟨.close, 0, 0⟩, ⟨.rename, 0, 0⟩, ⟨.cfail, 1, 0⟩, ⟨.get, 0, 0⟩,
+               ⟨.create, 2, 0⟩, ⟨.write, 2, 4⟩, ⟨.close, 2, 0⟩, ⟨.rename, 2, 0⟩, ⟨.get, 0, 0⟩,
+               ⟨.create, 3, 0⟩, ⟨.write, 3, 4⟩, ⟨.close, 3, 0⟩, ⟨.rnfail, 3, 0⟩, ⟨.probe, 0, 0⟩] }
+
+example : run exHistory =
+    { gets := [⟨.complete, 1, 0⟩, ⟨.complete, 2, 0⟩],
+      probes := [{ present := [true, false], keys := [⟨.complete, 2, 0⟩, ⟨.miss, 0, 0⟩], temps := 0, others := 0 }],
+      seen := [], failed := [1, 3] } := by decide
+
+/-- the store after the failed one was skipped (it returned nil, the old bundle is still served):
+a read after a completed write yields an older bundle -/
+example : Holds exHistory
+    { gets := [⟨.complete, 1, 0⟩, ⟨.complete, 1, 0⟩],
+      probes := [{ present := [true, false], keys := [⟨.complete, 1, 0⟩, ⟨.miss, 0, 0⟩], temps := 0, others := 0 }],
+      seen := [], failed := [1, 3] } = false := by decide
+
+/-- the failed store dropped the existing entry -/
+example : Holds exHistory
+    { gets := [⟨.miss, 0, 0⟩, ⟨.complete, 2, 0⟩],
+      probes := [{ present := [true, false], keys := [⟨.complete, 2, 0⟩, ⟨.miss, 0, 0⟩], temps := 0, others := 0 }],
+      seen := [], failed := [1, 3] } = false := by decide
+
+/-- a failed rename reported as success -/
+example : Holds exHistory
+    { gets := [⟨.complete, 1, 0⟩, ⟨.complete, 2, 0⟩],
+      probes := [{ present := [true, false], keys := [⟨.complete, 2, 0⟩, ⟨.miss, 0, 0⟩], temps := 0, others := 0 }],
+      seen := [], failed := [1] } = false := by decide
 
 /-- the reader machine is not vacuous: an open before a rename and reads after it return the old
 complete entry (the pinned inode), a later open returns the new one -/
